@@ -87,6 +87,24 @@ pub fn build(case: &Case) -> Constraints {
             let solver = rs_opw_kinematics::kinematics_impl::OPWKinematics::new_with_constraints(params, c);
             solver.constraints().expect("solver built with constraints")
         }
+        8 | 9 => {
+            // limits extracted from a URDF description: the constraints object a robot built by
+            // URDFParameters::to_robot (with calibration offsets) hands out, or the one returned
+            // by URDFParameters::constraints
+            use rs_opw_kinematics::kinematic_traits::Kinematics;
+            let u = rs_opw_kinematics::urdf::URDFParameters {
+                a1: 0.15, a2: -0.1, b: 0.0, c1: 0.5, c2: 0.7, c3: 0.7, c4: 0.1,
+                sign_corrections: [1, -1, 1, -1, 1, -1],
+                from: case.from,
+                to: case.to,
+                dof: 6,
+            };
+            if case.ctor == 8 {
+                u.to_robot(1.0, &[0.3, -0.2, 1.0, 0.0, -2.5, 0.5]).constraints().expect("robot built with constraints")
+            } else {
+                u.constraints(0.5)
+            }
+        }
         4 => {
             // the caller widens the public tolerances a little (a soft margin for `compliant`);
             // the limits the sampler must respect are still from/to
@@ -226,6 +244,14 @@ fn judge_vector(case: &Case, c: &Constraints, row: usize, v: &[f64; 6], fails: &
             detail: format!("sampled vector {v:?} lies well inside every arc but compliant() rejects it"),
             row,
         });
+    } else if all_yes && c.filter(&vec![*v]).len() != 1 {
+        // the list form of the same acceptance test
+        fails.push(Fail {
+            clause: "b:rejected-by-filter".into(),
+            signature: "C18/rejected-by-filter".into(),
+            detail: format!("sampled vector {v:?} lies well inside every arc and compliant() accepts it, but filter() drops it"),
+            row,
+        });
     }
 }
 
@@ -336,6 +362,13 @@ fn judge_vector_noidx(case: &Case, c: &Constraints, v: &[f64; 6], fails: &mut Ve
             clause: "b:rejected-by-compliant".into(),
             signature: "C18/rejected-by-compliant".into(),
             detail: format!("sampled vector {v:?} lies well inside every arc but compliant() rejects it"),
+            row: 0,
+        });
+    } else if all_yes && c.filter(&vec![*v]).len() != 1 {
+        fails.push(Fail {
+            clause: "b:rejected-by-filter".into(),
+            signature: "C18/rejected-by-filter".into(),
+            detail: format!("sampled vector {v:?} lies well inside every arc and compliant() accepts it, but filter() drops it"),
             row: 0,
         });
     }
@@ -547,7 +580,7 @@ fn gen_case(seed: u64, shard: usize, run: usize, t: &Tier, tally: &mut Tally) ->
     for j in 0..6 {
         tally.bump(&format!("limits_{}", class_of(from[j], to[j])), 1);
     }
-    let ctor: u8 = match w.below(10) {
+    let ctor: u8 = match w.below(12) {
         0 | 1 => 1,
         2 => 2,
         3 => 3,
@@ -555,9 +588,11 @@ fn gen_case(seed: u64, shard: usize, run: usize, t: &Tier, tally: &mut Tally) ->
         5 => 5,
         6 => 6,
         7 => 7,
+        8 => 8,
+        9 => 9,
         _ => 0,
     };
-    tally.bump(&format!("constraints_built_by_{}", ["new", "from_degrees", "update_range", "edited_fields_then_update_range", "new_then_widened_tolerances", "solver_constraints_by_prev", "solver_constraints_by_constraints", "solver_constraints_weight_half"][ctor as usize]), 1);
+    tally.bump(&format!("constraints_built_by_{}", ["new", "from_degrees", "update_range", "edited_fields_then_update_range", "new_then_widened_tolerances", "solver_constraints_by_prev", "solver_constraints_by_constraints", "solver_constraints_weight_half", "urdf_to_robot_with_offsets", "urdf_constraints"][ctor as usize]), 1);
     let c = build(&Case { from, to, draws: vec![], tasks: 1, cfg: None, ctor, prelude: None, gen_calls: 0, via_pool: false, regen: None });
     let rows = adversarial_rows(&c, &mut w, t.uniform, t.grid, tally);
     let concurrent = t.concurrent_every > 0 && run % t.concurrent_every == 0;
